@@ -48,7 +48,10 @@ from arim.core import InterfaceKind, Mode
 
 drv = arimgen.Driver(chk.ocaml_driver("C04"))
 rng = chk.rng
-Q = chk.tier == "quick"
+# second tie: the scalar kernels are re-translated from the current source and checked
+# convertible with the model; a broken tie deepens the correspondence run (thorough sizes)
+_ties = chk.translation_tie()
+Q = chk.tier == "quick" and all(v == "ok" for v in _ties.values())
 TOL = 1e-11
 RES = 1e-10
 MARGIN = 1e-9     # class D: relative distance of a Snell sine to 1 below which the end-to-end routes are ill-conditioned
